@@ -580,6 +580,14 @@ pub fn root_layer_histories(thorough: bool) -> Vec<(Value, usize, u64)> {
             out.push((hist("empty", vec!["Q64"], &cfg, vec![json!({"c": [w(a, 1), w(b, 1), w(far, 1)]}), json!({"c": c2})]), 1, 3));
         }
     }
+    // every part of a stored CHILD page: 64 keys below one depth-1 page (all last-layer slots are
+    // leaves); the traced commit rewrites / deletes the first, second, middle and last ones
+    for i in [0u64, 1, 31, 32, 62, 63] {
+        for delete in [false, true] {
+            let c2 = if delete { vec![del(i)] } else { vec![w(i, 2)] };
+            out.push((hist("full1", vec!["F64"], &cfg, vec![json!({"c": c2})]), 0, 3));
+        }
+    }
     if thorough {
         for a in 0u64..8 {
             for b in a + 1..8 {
